@@ -23,6 +23,7 @@ type Spec struct {
 	Backoff   float64 `json:"backoff,omitempty"`
 	IncBy     int     `json:"increase_by,omitempty"`
 	ProbeMult int     `json:"probe_multiplier,omitempty"`
+	MaxArg    string  `json:"max_argument,omitempty"` // "" (Max is passed) | "0" | "-1": the constructor is asked for its default maximum (1000), Max holds 1000
 	Debug     bool    `json:"debug_logger,omitempty"` // built with a logger whose IsDebugEnabled() is true (output discarded)
 	Funcs     string  `json:"vegas_custom_functions,omitempty"` // "" (defaults) | decrease=half | decrease=minus3 | threshold=0 | threshold=-1 | increase=plus2
 	QueueKind string  `json:"queue_kind,omitempty"` // fixed | sqrt
@@ -111,6 +112,22 @@ func (s Spec) logger() limit.Logger {
 	return nil
 }
 
+func (s Spec) maxArg() int {
+	switch s.MaxArg {
+	case "0":
+		return 0
+	case "-1":
+		return -1
+	}
+	return s.Max
+}
+
+// WithDefaultMax turns the spec into one that asks the constructor for its default maximum (Vegas, Gradient: 1000).
+func (s Spec) WithDefaultMax(arg string) Spec {
+	s.MaxArg, s.Max = arg, 1000
+	return s
+}
+
 // New builds a fresh instance.
 func (s Spec) New(reg core.MetricRegistry, name string, tags ...string) core.Limit {
 	switch s.Kind {
@@ -131,10 +148,10 @@ func (s Spec) New(reg core.MetricRegistry, name string, tags ...string) core.Lim
 		case "increase=plus2":
 			inc = func(l float64) float64 { return l + 2 }
 		}
-		return limit.NewVegasLimitWithRegistry(name, s.Initial, nil, s.Max, s.Smoothing, nil, nil, thr, inc, dec,
+		return limit.NewVegasLimitWithRegistry(name, s.Initial, nil, s.maxArg(), s.Smoothing, nil, nil, thr, inc, dec,
 			s.ProbeMult, s.logger(), reg, tags...)
 	case "gradient":
-		return limit.NewGradientLimitWithRegistry(name, s.Initial, s.Min, s.Max, s.Smoothing, s.Queue(), s.RTTTol,
+		return limit.NewGradientLimitWithRegistry(name, s.Initial, s.Min, s.maxArg(), s.Smoothing, s.Queue(), s.RTTTol,
 			s.ProbeInt, s.logger(), reg, tags...)
 	case "gradient2":
 		l, err := limit.NewGradient2Limit(name, s.Initial, s.Max, s.Min, s.Queue(), s.Smoothing, s.LongWin, s.logger(), reg, tags...)
